@@ -134,6 +134,9 @@ reclaim('C07', 'Source tie (8 theorems, axiom-free; Properties/C07Src.v): fp_fol
 reclaim('C09', 'Source tie (3 theorems, axiom-free; Properties/C09Src.v): bit_eq_matches_source, count_eq_matches_source (the boolean structure of the expression returned by Fingerprint.__eq__ / CountFingerprint.__eq__ over five named atomic comparisons, '
         'the class tested by the isinstance guard and the exception raised), ne_matches_source; proved by case analysis on the atoms, so reordering conjuncts passes while a dropped, added or negated conjunct fails.',
         SRC_NOTE % ('C09', 'harness/facts_eqsrc.py', 'EqSource.v') + ' The five atoms are matched as exact text and read as option_eqb / Z.eqb / kind_eqb / list_eqb / cmap_eqb.')
+reclaim('C16', 'Source tie (3 theorems, axiom-free; Properties/C16Src.v): check_valid_matches_source (the per-member guards of _check_fingerprints_are_valid - tests, exception classes, order - translated from the source text), '
+        'check_valid_every_member (a batch passes iff EVERY member passes them, at any position of a batch of any length), check_valid_first_offender.',
+        SRC_NOTE % ('C16', 'harness/facts_dbchecksrc.py', 'DbCheckSource.v') + ' The translator requires structurally that the loop runs over the whole batch, holds nothing but `if <test>: raise` guards, and that the validation call is the first statement of add_fingerprints.')
 reclaim('C15', 'Histories with a pre-existing database file: outputs of one molecule lost while the database of an earlier run is still in place (re-run twice), and the same batch run four times into the same db_file in database-only mode (three input orders, with and without overwrite): the named fingerprints must not depend on what an earlier run left in db_file.', None)
 reclaim('C16', 'Batches of 1100 / 4200 / 9000 (thorough: up to 70000) fingerprints with one faulty member at the last and at a late position (length, level, missing property, sequence-valued property), on a deep copy of the target: slice-wise validation or commit is refused too late.', None)
 reclaim('C01', 'Search streams added after seeded rounds 3-4: all 24 (48 with stereo off) signed axis permutations - exact in floating point - of flat and gridded molecules run on the implementation; molecules scaled so that one '
